@@ -506,7 +506,16 @@ Proof.
 Qed.
 
 (* one line of the emitted text / of its value *)
-Definition pad (k : nat) (l : chars) : chars := if blank (esc3 l ++ [NL]) then [] else spaces k.
+Definition pad (k : nat) (l : chars) : chars := match l with [] => [] | _ => spaces k end.
+
+Lemma only_nl_esc3 l : only_nl (esc3 l ++ [NL]) = match l with [] => true | _ => false end.
+Proof.
+  destruct l as [|c r]; [reflexivity|].
+  pose proof (esc3_length (c :: r)) as Hl. pose proof (esc3_no_nl (c :: r)) as Hn.
+  destruct (esc3 (c :: r)) as [|x t]; [simpl in Hl; lia|].
+  apply has_cons_false in Hn as [Hx _]. unfold only_nl. cbn [app forallb].
+  unfold ceq in *. rewrite Ascii.eqb_sym, Hx. reflexivity.
+Qed.
 Definition emitted (k : nat) (lines : list chars) : chars :=
   flat_map (fun l => pad k l ++ esc3 l ++ [NL]) lines.
 Definition indented (k : nat) (lines : list chars) : chars :=
@@ -520,7 +529,7 @@ Proof.
   unfold indent_text, emitted, escaped. induction lines as [|l ls IH].
   - cbn. rewrite app_nil_r. reflexivity.
   - cbn [flat_map]. rewrite <- !app_assoc. cbn [app]. rewrite lines_keep_line by apply esc3_no_nl.
-    cbn [flat_map]. rewrite IH. unfold pad. destruct (blank (esc3 l ++ [NL])); cbn [app];
+    cbn [flat_map]. rewrite IH, only_nl_esc3. unfold pad. destruct l; cbn [app];
       rewrite <- ?app_assoc; reflexivity.
 Qed.
 
@@ -553,7 +562,8 @@ Lemma eval_line k l r f :
 Proof.
   assert (H : forall g, eval_triple (List.length l + S g) (esc3 l ++ NL :: r) = lift (l ++ [NL]) (eval_triple g r)).
   { intro g. rewrite eval_esc3, nl_step. rewrite <- lift_app. reflexivity. }
-  unfold pad. destruct (blank (esc3 l ++ [NL])).
+  assert (Hp : pad k l = [] \/ pad k l = spaces k) by (unfold pad; destruct l; auto).
+  destruct Hp as [-> | ->].
   - cbn [app]. rewrite app_length. cbn [List.length]. rewrite <- app_assoc. cbn [app].
     replace (List.length l + 1 + f) with (List.length l + S f) by lia. apply H.
   - rewrite !app_length. cbn [List.length]. rewrite <- !app_assoc. cbn [app].
@@ -853,38 +863,9 @@ Qed.
 
 (* ---------------------------------------------------------------- is the indentation uniform? *)
 (* what a block string needs: EVERY non-empty line behind the same k blanks (its common indentation
-   then grows by k and the value is unchanged).  textwrap.indent skips whitespace-only lines. *)
+   then grows by k and the value is unchanged).  Since 2c2512c this is what the rewriter does. *)
 Definition uniform (k : nat) (lines : list chars) : chars :=
   NL :: flat_map (fun l => (match l with [] => [] | _ => spaces k end) ++ l ++ [NL]) lines ++ spaces k.
 
-(* a line that is not empty and consists of blanks only *)
-Definition only_blanks (l : chars) : bool :=
-  match l with [] => false | _ => forallb (ceq SP) l end.
-
-Lemma esc_char_blank c : blank (esc_char c) = ceq SP c.
-Proof. destruct c as [[] [] [] [] [] [] [] []]; reflexivity. Qed.
-
-Lemma blank_app a b : blank (a ++ b) = blank a && blank b.
-Proof. unfold blank. apply forallb_app. Qed.
-
-Lemma blank_esc3 : forall l, blank (esc3 l) = forallb (ceq SP) l.
-Proof.
-  apply esc3_ind.
-  - reflexivity.
-  - intros r _. reflexivity.
-  - intros c r E IH. rewrite esc3_other by exact E. rewrite blank_app, esc_char_blank, IH. reflexivity.
-Qed.
-
-Lemma pad_uniform k l : only_blanks l = false ->
-  pad k l = match l with [] => [] | _ => spaces k end.
-Proof.
-  unfold pad, only_blanks. rewrite blank_app, blank_esc3. destruct l as [|c r]; intro H; [reflexivity|].
-  rewrite H. reflexivity.
-Qed.
-
-Lemma embedded_uniform k lines : existsb only_blanks lines = false -> embedded k lines = uniform k lines.
-Proof.
-  intro H. unfold embedded, uniform, indented. f_equal. f_equal.
-  induction lines as [|l ls IH]; [reflexivity|]. cbn [existsb] in H. apply orb_false_iff in H as [H1 H2].
-  cbn [flat_map]. rewrite pad_uniform by exact H1. rewrite IH by exact H2. reflexivity.
-Qed.
+Lemma embedded_uniform k lines : embedded k lines = uniform k lines.
+Proof. reflexivity. Qed.
